@@ -269,8 +269,10 @@ func recAttributes(i int, r urec, keys []string, cfg *c06Cfg, forJSON bool) map[
 			a[catName(j)] = cfg.spell(v)
 		}
 	}
-	a["rank"] = i // an attribute that differs between the records of a class
-	a["origin"] = "verif"
+	if cfg.Variant%3 != 2 { // one realisation out of three has no decoy: a record may then bear no annotation at all
+		a["rank"] = i // an attribute that differs between the records of a class
+		a["origin"] = "verif"
+	}
 	if r.Mt == "val" || r.Mt == "both" {
 		if r.Mv == "7" {
 			a["k"] = 7 // a numeric attribute value: counted under its text
